@@ -22,6 +22,9 @@ static std::vector<std::vector<OpSpec>> shape(long s, long large)
   case 3: return {{{0, L}, {0, L}, {0, L}}, {{1, 0}}};
   case 4: return {{{0, 0}, {0, 0}, {0, 0}}, {{1, L}, {0, 0}}};
   case 5: return {{{0, 0}, {1, 0}, {0, L}}, {{1, 0}, {0, L}, {1, 0}}};
+  case 6: return {{{-1, 0}}, {{0, 0}, {0, 0}}};            // logger -1 = flush_log() on logger A
+  case 7: return {{{0, 0}, {-1, 0}}, {{1, 0}, {0, 0}}};
+  case 8: return {{{-1, 0}, {0, 0}}, {{0, 0}}, {{1, 0}}};
   default: return {{{0, 0}}, {{1, 0}}};
   }
 }
@@ -61,6 +64,12 @@ static Scenario make_c03(std::map<std::string, long> const& cfg)
         for (auto const& op : (*sh)[t])
         {
           point();
+          if (op.logger < 0)
+          {
+            (*loggers)[0]->flush_log();
+            w.events.push_back("flush " + std::to_string(tid));
+            continue;
+          }
           ++seq;
           log_id((*loggers)[static_cast<size_t>(op.logger)], tid, seq, static_cast<size_t>(op.pad));
           // the call completed: from now on the statement is "accepted"
